@@ -52,10 +52,31 @@ class FileCache:
         Returns:
         - object: The processed contents of the file
         """
-        with open(os.path.join(self.root_path, file_name), 'rb') as file:
-            contents, memory_usage = self.process_contents(file.read())
+        try:
+            with open(os.path.join(self.root_path, file_name), 'rb') as file:
+                contents, memory_usage = self.process_contents(file.read())
+        except BaseException:
+            self._discard_placeholder(file_name)
+            raise
         self.update_file_futures_and_memory(file_name, memory_usage=memory_usage)
         return contents
+
+    def _discard_placeholder(self, file_name):
+        """
+        A load or write of the file failed: its placeholder entry (which was never counted in the
+        memory usage) must not stay in the table, or later calls would see the old failure again and
+        subtract a claim that was never added.
+
+        Args:
+        - file_name (str): the name of the file whose load or write failed
+
+        Returns:
+        None
+        """
+        with self.file_futures_lock:
+            self.file_futures.pop(file_name, None)
+            self.file_access_times = [(t, fn) for t, fn in self.file_access_times if fn != file_name]
+            heapq.heapify(self.file_access_times)
 
     def _write_file(self, file_name, new_file_contents, use_fsync):
         """
@@ -71,17 +92,21 @@ class FileCache:
         """
         write_fname = os.path.join(self.root_path, file_name)
         write_path = os.path.dirname(write_fname)
-        os.makedirs(write_path, exist_ok=True)
-        with open(os.path.join(self.root_path, file_name), 'wb') as f:
-            f.write(new_file_contents)
+        try:
+            os.makedirs(write_path, exist_ok=True)
+            with open(os.path.join(self.root_path, file_name), 'wb') as f:
+                f.write(new_file_contents)
+                if use_fsync:
+                    # the data is still in the file object's buffer: hand it to the OS before syncing
+                    f.flush()
+                    os.fsync(f.fileno())
             if use_fsync:
-                # the data is still in the file object's buffer: hand it to the OS before syncing
-                f.flush()
-                os.fsync(f.fileno())
-        if use_fsync:
-            # the file's directory entry (and that of any directory just created) must be durable too
-            self._fsync_dirs(write_path)
-        contents, memory_usage = self.process_contents(new_file_contents)
+                # the file's directory entry (and that of any directory just created) must be durable too
+                self._fsync_dirs(write_path)
+            contents, memory_usage = self.process_contents(new_file_contents)
+        except BaseException:
+            self._discard_placeholder(file_name)
+            raise
         self.update_file_futures_and_memory(file_name, memory_usage=memory_usage)
         return contents
 
